@@ -54,10 +54,9 @@ pub(super) fn get_color_indexed(
     if node.has_attribute("rgb") {
         let raw = node.attribute("rgb").unwrap();
         // Strip leading alpha byte from ARGB (e.g. "FF4472C4" → "#4472C4")
-        let hex = if raw.len() == 8 {
-            format!("#{}", raw[2..].to_ascii_uppercase())
-        } else {
-            format!("#{}", raw.to_ascii_uppercase())
+        let hex = match raw.get(2..) {
+            Some(rgb) if raw.len() == 8 => format!("#{}", rgb.to_ascii_uppercase()),
+            _ => format!("#{}", raw.to_ascii_uppercase()),
         };
         Ok(Color::Rgb(hex))
     } else if node.has_attribute("indexed") {
